@@ -37,6 +37,11 @@ CLAIMED = {
          "Every codec variant (31) is driven over boundary payload sizes, write chunkings and read plans, with the pooled readers/writers first dragged through random histories (complete, abandoned, truncated, corrupted streams, failing sinks); outputs must round-trip, be readable by the reference decoder and reference-encoded streams must be read back exactly.",
          "trusted: the reference libraries (zstd shares klauspost with the library: stated); pool reuse is observed by pointer identity, not forced",
          "DESIGN.md section 5 C16"),
+ "C02": ("exploration",
+         "runtime monitor: delivered sequence vs ground-truth partition log over generated physical layouts and fault scripts; logical bounded-progress budget counted in fetch requests at the fake broker; SetOffset call/return history aligned with deliveries",
+         "A real Reader reads partition logs whose physical layout is generated by the independent reference codec (formats 0/1/2 mixed, all codecs, compaction holes, compacted tails, retained empty batches, relative-offset wrappers, truncated tails) through fetch v2/v5/v10/v11 under cuts, NotLeader with migration, OffsetOutOfRange, empty answers, drops, and SetOffset calls issued between or concurrently with FetchMessage; the delivered sequence must equal the stored records from the position, and must be complete within a fetch-count budget.",
+         "trusted: refcodec encoders for the layouts, the fake broker's serving rule (whole batches from the one containing the offset; optional tail truncation); deliveries to calls overlapping a SetOffset may belong to either position",
+         "DESIGN.md section 5 C02"),
 }
 
 REASON_NOT_BUILT = "check not built yet in this round (design in DESIGN.md section 5); no claim is made"
